@@ -283,6 +283,66 @@ def _slot_worker(a):
     return res
 
 
+def _retired_worker(a):
+    """Directed: a reply that bears a name the daemon no longer has.
+    variant 0: service A answers a client (its name is the last one a reply was matched to); the client leaves; one reload retires
+      A with nobody waiting, the next adds B (which may take A's place in the table); a second client waits on B; a reply from A -
+      a name that is not configured any more - bearing that client's tag is not owed.
+    variant 1: a client waits on A; a reload respells A's type as a word that is no protocol (the entry is as good as removed, but
+      A still owes the client its answer) and adds B behind it; a reply from B, which was never asked, bearing the client's tag is
+      not owed; A's own answer afterwards is."""
+    b, seed, variant = a["build"], a["seed"], a["variant"] % 2
+    rng = random.Random(seed)
+    A, B = rng.choice([("login.svc", "other.svc"), ("a.example", "b.example"), ("Alpha.Net", "zeta.example.org"), ("m.svc", "n.svc")])
+    pA = rng.choice(["login", "login-ipr"])
+    data1 = [{"t": "host", "id": 5, "name": "h.example"}, {"t": "ident", "id": 5, "name": "id"}]
+    if variant == 0:
+        cfg = proto.Config([(A, pA)], timeout=3600)
+        pB = rng.choice(["login", "login-ipr"])
+        pre = [{"t": "announce", "id": 5, "ip": "1.2.3.4", "port": 1000}] + data1 + [{"t": "password", "id": 5, "text": "+x alice pw"},
+               {"t": "reply", "svc": A, "tag": "5_1", "text": rng.choice(["AGAIN retry", "OK alice", "OK"])}, {"t": rng.choice(["disconnect", "registered"]), "id": 5},
+               {"t": "reload", "services": []}, {"t": "reload", "services": [[B, pB]]},
+               {"t": "announce", "id": 6, "ip": "6.6.6.6", "port": 2000}, {"t": "host", "id": 6, "name": "h6.example"}, {"t": "ident", "id": 6, "name": "id6"},
+               {"t": "password", "id": 6, "text": "+x bob pw"}]
+        post = [{"t": "stats"}, {"t": "reply", "svc": B, "tag": "6_2", "text": "OK bob"}, {"t": "nick", "id": 6, "name": "n6"}, {"t": "userinfo", "id": 6, "user": "u", "real": "r"},
+                {"t": "hurry", "id": 6}, {"t": "stats"}]
+        tag, stray_svc, waiting = "6_2", A, (6, B)
+    else:
+        cfg = proto.Config([(A, pA)], timeout=3600)
+        pre = [{"t": "announce", "id": 5, "ip": "1.2.3.4", "port": 1000}] + data1 + [{"t": "password", "id": 5, "text": "+x alice pw"},
+               {"t": "reload", "services": [[A, rng.choice(["logn", "login2", "dronechek", "LOGIN-IPRR"])], [B, "dronecheck"]]}]
+        if rng.random() < 0.5:
+            pre += [{"t": "reload", "services": [[B, "dronecheck"], ["c.added", "login"]]}]
+        post = [{"t": "stats"}, {"t": "reply", "svc": A, "tag": "5_1", "text": "OK alice"}, {"t": "nick", "id": 5, "name": "n5"}, {"t": "userinfo", "id": 5, "user": "u", "real": "r"},
+                {"t": "hurry", "id": 5}, {"t": "reply", "svc": B, "tag": "5_1", "text": "OK"}, {"t": "stats"}]
+        tag, stray_svc, waiting = "5_1", B, (5, A)
+    events = pre + post
+    ins_at = len(pre)
+    res = {"viol": [], "stats": {"retired_name_scenarios": 1, "stray_lines_inserted": 0, "stray_kinds": {}, "pairs_compared": 0, "steps_compared": 0,
+                                 "strays_hitting_live_id": 0, "strays_stale_serial": 0, "strays_malformed_tag": 0, "strays_wrong_service": 0},
+           "nontrivial": True, "hash": vcommon.h(["retired", seed, variant]), "inconc": []}
+    base = prun.replay_events(b, cfg, events)
+    if base.result and (base.result["exit"] != 0 or base.result["sanitizer"]):
+        res["inconc"].append("daemon unclean in base run: %s" % (base.result,))
+        return res
+    asked = [c["svc"] for ev, out in base.steps for c in [proto.classify(l) for l in out] if c and c["kind"] == "xquery" and c["tag"] == tag]
+    if waiting[1] not in asked:
+        res["inconc"].append("retired-name scenario: %s was not asked about the client (%s)" % (waiting[1], asked))
+        return res
+    views = [gen.View({waiting[0]: {"tag": tag, "awaiting": {waiting[1]}}}, [], [])] * (len(events) + 1)
+    for text in ("NO go away", "OK mallory:666", "MORE prove it", "OK", "AGAIN retry"):
+        for kind in ("reply", "unlinked"):
+            st = {"t": kind, "svc": stray_svc, "tag": tag, "text": text}
+            bad = compare_run(b, cfg, base, events, {ins_at: st}, res["stats"], views)
+            if bad:
+                res["viol"].append(("C04", bad[0], bad[0] + (":retired-name" if variant == 0 else ":never-asked-after-type-error"), "%s\nstray line %s inserted at step %d of\n%s\n%s" % (
+                    bad[1], proto.render(st), ins_at, "\n".join("  " + proto.render(e) for e in events), bad[2]), {"config": cfg.to_json(), "events": events, "insert_at": ins_at, "stray": st}))
+                return res
+            if kind == "unlinked":
+                break
+    return res
+
+
 def _report_worker(a):
     """Directed: a reload adds a service whose name sorts before the one a client is waiting on; an operator then asks for the
     statistics / the configuration report; a reply from the newcomer - which was never asked about the client - bearing the
@@ -395,6 +455,7 @@ def run(chk, tier, scale=1.0):
                          nsets=4 if tier == "quick" else 8, kper=8, alt_services=alt))
     results = vcommon.pmap(_worker, jobs, chunksize=2)
     results += vcommon.pmap(_slot_worker, [dict(build=b, seed=chk.seed * 1000 + k) for k in range(int((24 if tier == "quick" else 400) * scale))])
+    results += vcommon.pmap(_retired_worker, [dict(build=b, seed=chk.seed * 3000 + k, variant=k) for k in range(int((12 if tier == "quick" else 200) * scale) or 2)])
     results += vcommon.pmap(_report_worker, [dict(build=b, seed=chk.seed * 1000 + 500 + k) for k in range(int((12 if tier == "quick" else 200) * scale) or 1)])
     results += vcommon.pmap(_wrap_worker, [dict(build=b, n=n_, seed=chk.seed * 10 + k) for k, n_ in enumerate([256, 4096, 65536, 65536] + ([1 << 20] if tier != "quick" else []))])
     import build as buildmod
